@@ -659,7 +659,9 @@ def run_case_for(pid, case):
         feats.append("has=error-delivered")
     nontrivial = None
     if ntasks >= 2 and nflush >= 1:
-        nontrivial = hashlib.sha1(json.dumps([case.get("cfg"), case["tops"]], sort_keys=True).encode()).hexdigest()[:16]
+        # (family cases are thousands of levels deep: hash their compact description, not the expanded program)
+        what = case["family"] if case.get("family") else case["tops"]
+        nontrivial = hashlib.sha1(json.dumps([case.get("cfg"), what], sort_keys=True).encode()).hexdigest()[:16]
     return {"lines": lines, "features": feats, "nontrivial": nontrivial}
 
 
